@@ -39,7 +39,7 @@ def tasks(tier, seed):
     n = 1400 if tier == "quick" else 40000
     shards = 48 if tier == "quick" else 192
     t = [(MOD, "hyp", (n // shards, seed * 1_000_003 + i, tier)) for i in range(shards)]
-    for name, nsh in (("py-pairs", 32), ("str-triples", 16), ("extra-triples", 8), ("mixed-py-triples", 8), ("wide-with-neutral", 16), ("str-group-pairs", 8)):
+    for name, nsh in (("py-pairs", 32), ("str-triples", 16), ("extra-triples", 8), ("mixed-py-triples", 8), ("wide-with-neutral", 16), ("str-group-pairs", 8), ("consensus-py", 16)):
         for sh in range(nsh):
             t.append((MOD, "tables", (name, tier, sh, nsh)))
     return t
@@ -57,6 +57,11 @@ def tables(acc, name, tier, shard, nshards):
 def hyp(acc, n, seed, tier):
     mod = sys.modules[MOD]
     harness.run_hypothesis(acc, O.family_case(3 if tier == "quick" else 4), lambda c: harness.process(mod, acc, "family", c, "L2-hyp"), n, seed)
+
+
+def is_known(kind, case):
+    # S4a through markers: V >= lo merged with V < "X.postN" renders as ~=lo (see known_findings.json)
+    return "S4a-post-release-upper-bound" if O.s4a_case(case) else None
 
 
 def evaluate(kind, case, acc):
